@@ -195,6 +195,23 @@ def stress(g, key):
                 g.get_edge(a, b).meta.update(meta)
         except Exception:  # noqa: BLE001
             done.append('stress-raised')
+    # 3. detour through a mixed state: retype one directed edge to --, ask for exports that a mixed graph refuses,
+    #    orient it again (a refused export may fill some caches but not others)
+    if directed and h // 17 % 2:
+        a, b = directed[h // 19 % len(directed)]
+        try:
+            g.change_edge_type(a, b, EdgeType.UNDIRECTED_EDGE)
+            for f in (g.to_networkx, g.to_gml_string, lambda: g.adjacency_matrix, g.to_numpy, g.is_dag):
+                try:
+                    f()
+                except Exception:  # noqa: BLE001
+                    pass
+                if h // 23 % 2:
+                    break
+            g.change_edge_type(a, b, EdgeType.DIRECTED_EDGE)
+            done.append('mixed-detour')
+        except Exception:  # noqa: BLE001
+            done.append('detour-raised')
     if h // 13 % 2:
         done += export_abuse(g)
     return done
